@@ -135,7 +135,7 @@ func (r *SimReader) ReadRune() (rune, int, error) {
 	if r.Plan.FaultAt >= 0 && r.pos >= r.Plan.FaultAt {
 		fire := false
 		switch r.Plan.FaultKind {
-		case "transient":
+		case "transient", "once-then-eof":
 			if !r.transientDone && r.pos == r.Plan.FaultAt {
 				fire = true
 				r.transientDone = true
@@ -153,7 +153,8 @@ func (r *SimReader) ReadRune() (rune, int, error) {
 			return 0, 0, InjectedErr(r.Plan.ErrKind)
 		}
 	}
-	if r.pos >= len(r.Src) {
+	if r.pos >= len(r.Src) || (r.Plan.FaultKind == "once-then-eof" && r.transientDone) {
+		// "once-then-eof": after its single failure the source "recovers" into end of input
 		r.prev = -1
 		r.EOFs++
 		r.S.noteIO(EvRead, "ReadRune!EOF", r.pos, 0)
